@@ -78,22 +78,24 @@ def _call(args):
     return fn(shard)
 
 
-def pmap(fn, shards, report, seed=0, nproc=None):
+def pmap(fn, shards, report, seed=0, nproc=None, fresh=False):
     """Run fn(shard)->Partial.data() for every shard on the pool; merge into report.
+    fresh=True: every shard runs in a newly forked child of this process (no state left behind by an earlier shard:
+    module-level caches, functools caches), for histories whose verdict must not depend on what a worker ran before.
     fn must be a module-level function.  Shard order is permuted by seed (only the
     schedule changes, not the set of shards)."""
     shards = list(shards)
     order = list(range(len(shards)))
     random.Random(seed).shuffle(order)
     nproc = nproc or NPROC
-    if nproc <= 1 or len(shards) <= 1:
+    if (nproc <= 1 or len(shards) <= 1) and not fresh:
         _init_worker()
         for i in order:
             report.merge_partial(_call((fn, shards[i])))
         return
     ctx = mp.get_context("fork")
     sandbox.setup()  # import once, share by fork
-    with ctx.Pool(min(nproc, len(shards)), initializer=_init_worker) as pool:
+    with ctx.Pool(min(nproc, len(shards)), initializer=_init_worker, maxtasksperchild=1 if fresh else None) as pool:
         for part in pool.imap_unordered(_call, [(fn, shards[i]) for i in order], chunksize=1):
             report.merge_partial(part)
 
